@@ -22,7 +22,7 @@ EXPLANATION = "bounded exhaustive scenario enumeration; physical invariants and 
 MIN_NONTRIVIAL_FRACTION = 0.4
 MAX_S = {"quick": 900, "thorough": 7200}
 
-STO_FEATS = dict(sto_eff=1, sto_costs=1, sto_inflow=1, sto_levels=1, sto_two_nodes=1, sto_blocks=["12h", "d"],
+STO_FEATS = dict(sto_eff=[1.0, 0.9, 1.25], sto_caps=1, sto_costs=1, sto_inflow=1, sto_levels=1, sto_two_nodes=1, sto_blocks=["12h", "d"],
                  sto_mip=[6.0, 12.0, 48.0], sto_price=1, sto_size0=1, window=1, wacc=1)
 
 
